@@ -16,6 +16,5 @@ fn main() {
 
 /// A free loopback port (bind to port 0, read it back, release it).
 pub fn free_addr() -> std::net::SocketAddr {
-    let l = std::net::TcpListener::bind("127.0.0.1:0").expect("bind");
-    l.local_addr().unwrap()
+    vcommon::free_addr()
 }
